@@ -21,63 +21,89 @@ def parseCatch? (s : String) : Option Catch :=
   | "noneret" => some .noneRet
   | _ => if s.startsWith "k" then (s.drop 1).toString.toNat?.map .user else none
 
+/-- `-` or `2,1`: the parameters (by index) the keyword arguments of a call are for -/
+def parseKws? (s : String) : Option (List Nat) :=
+  if s = "-" then some [] else (s.splitOn ",").mapM (·.toNat?)
+
 mutual
-partial def parseExpr : List String → Option (Expr × List String)
+/-- `dflt c`: the default values of the last parameters of cells `c`, from the signatures the program
+declares (`sig` lines, sent before any formula); a call of a cells that has defaults is read as
+`Expr.callK`, which carries them -/
+partial def parseExprWith (dflt : CellId → List Val) : List String → Option (Expr × List String)
   | "N" :: rest => some (.none, rest)
   | "(" :: "lit" :: i :: ")" :: rest => (parseInt? i).map (fun v => (.lit v, rest))
   | "(" :: "p" :: i :: ")" :: rest => i.toNat?.map (fun v => (.param v, rest))
   | "(" :: "rn" :: i :: ")" :: rest => i.toNat?.map (fun v => (.readN v, rest))
   | "(" :: "ra" :: i :: ")" :: rest => i.toNat?.map (fun v => (.readA v, rest))
   | "(" :: "raise" :: i :: ")" :: rest => i.toNat?.map (fun v => (.raise v, rest))
-  | "(" :: "add" :: rest => bin .add rest
-  | "(" :: "sub" :: rest => bin .sub rest
-  | "(" :: "mul" :: rest => bin .mul rest
-  | "(" :: "lt" :: rest => bin .lt rest
+  | "(" :: "add" :: rest => bin dflt .add rest
+  | "(" :: "sub" :: rest => bin dflt .sub rest
+  | "(" :: "mul" :: rest => bin dflt .mul rest
+  | "(" :: "lt" :: rest => bin dflt .lt rest
   | "(" :: "if" :: rest => do
-      let (c, r1) ← parseExpr rest
-      let (a, r2) ← parseExpr r1
-      let (b, r3) ← parseExpr r2
+      let (c, r1) ← parseExprWith dflt rest
+      let (a, r2) ← parseExprWith dflt r1
+      let (b, r3) ← parseExprWith dflt r2
       match r3 with
       | ")" :: r4 => some (.ite c a b, r4)
       | _ => none
   | "(" :: "try" :: rest => do
-      let (a, r1) ← parseExpr rest
+      let (a, r1) ← parseExprWith dflt rest
       match r1 with
       | c :: r2 => do
         let c ← parseCatch? c
-        let (b, r3) ← parseExpr r2
+        let (b, r3) ← parseExprWith dflt r2
         match r3 with
         | ")" :: r4 => some (.try_ a c b, r4)
         | _ => none
       | _ => none
   | "(" :: "tryre" :: rest => do
-      let (a, r1) ← parseExpr rest
+      let (a, r1) ← parseExprWith dflt rest
       match r1 with
       | c :: r2 => do
         let c ← parseCatch? c
-        let (b, r3) ← parseExpr r2
+        let (b, r3) ← parseExprWith dflt r2
         match r3 with
         | ")" :: r4 => some (.tryRe a c b, r4)
         | _ => none
       | _ => none
-  | "(" :: "tryfin" :: rest => bin .tryFin rest
+  | "(" :: "tryfin" :: rest => bin dflt .tryFin rest
+  -- `(via <kind> e)`: `e` evaluated inside an extra plain Python frame of the same formula (generator
+  -- expression, comprehension, lambda, nested def).  Value, calls, their order and errors are those of
+  -- `e`; the model has no frames, so the reader drops the wrapper (what differs is the rendered Python:
+  -- line numbers of tracebacks, which the C17 oracle compares on the implementation)
+  | "(" :: "via" :: _kind :: rest => do
+      let (a, r1) ← parseExprWith dflt rest
+      match r1 with
+      | ")" :: r2 => some (a, r2)
+      | _ => none
   | "(" :: "call" :: c :: rest => do
       let c ← c.toNat?
-      let (args, r1) ← parseArgs rest
-      some (.call c args, r1)
+      let (args, r1) ← parseArgs dflt rest
+      match dflt c with
+      | [] => some (.call c args, r1)
+      | d => some (.callK c args args.length [] d, r1)
+  | "(" :: "callk" :: c :: npos :: kws :: rest => do
+      let c ← c.toNat?
+      let npos ← npos.toNat?
+      let kws ← parseKws? kws
+      let (args, r1) ← parseArgs dflt rest
+      if args.length = npos + kws.length then some (.callK c args npos kws (dflt c), r1) else none
   | _ => none
-partial def bin (f : Expr → Expr → Expr) (rest : List String) : Option (Expr × List String) := do
-  let (a, r1) ← parseExpr rest
-  let (b, r2) ← parseExpr r1
+partial def bin (dflt : CellId → List Val) (f : Expr → Expr → Expr) (rest : List String) : Option (Expr × List String) := do
+  let (a, r1) ← parseExprWith dflt rest
+  let (b, r2) ← parseExprWith dflt r1
   match r2 with
   | ")" :: r3 => some (f a b, r3)
   | _ => none
-partial def parseArgs : List String → Option (List Expr × List String)
+partial def parseArgs (dflt : CellId → List Val) : List String → Option (List Expr × List String)
   | ")" :: rest => some ([], rest)
   | toks => do
-    let (a, r1) ← parseExpr toks
-    let (as, r2) ← parseArgs r1
+    let (a, r1) ← parseExprWith dflt toks
+    let (as, r2) ← parseArgs dflt r1
     some (a :: as, r2)
 end
+
+def parseExpr : List String → Option (Expr × List String) := parseExprWith (fun _ => [])
 
 end Driver
